@@ -21,6 +21,9 @@ out-of-range indices, duplicate names, illegal nesting, syntax errors) so that r
 
 corr
   parse_program : circuit dump, or the exception class (+ line/column of a JaqalParseError)
+  round_trip_layers : the three layer statements of Props/C01.lean evaluated by the model (`Pipeline.layers`): the
+                  parser model maps `toks c` to `unbuild c`, lexing `gen c` gives `toks c`, building `unbuild c` gives an
+                  `==` circuit with the same text — expected to hold for every program the real code round-trips
   round_trip    : generated text byte for byte, `c == parse(gen(c))`, byte-stability of the second generation, dump
                   of the re-parsed circuit (or class and stage of the exception)
 
@@ -159,6 +162,7 @@ class ProgGen:
         self.rsize = {}       # register-like name -> list of fundamental indices
         self.qubits = {}      # single-qubit alias -> fundamental index
         self.macros = {}      # name -> kinds string
+        self.macro_sub = {}   # name -> does its expansion contain a subcircuit block
         self.top = []         # top-level statements, macro definitions interleaved
         self.header_order = []
         self.feat = Counter()
@@ -208,6 +212,8 @@ class ProgGen:
                     lit = ("int", t, int(t))
                 else:
                     t = float_text(rng)
+                    while abs(float(t)) >= 2.0 ** 53 and rng.random() < 0.8:
+                        t = float_text(rng)
                     lit = ("flt", t, as_integer(float(t)))
             self.lets.append((name, lit))
             self.letval[name] = lit[2]
@@ -403,7 +409,7 @@ class ProgGen:
 
     def gate(self, cx):
         rng = self.rng
-        callable_macros = [m for m in cx["macros"]]
+        callable_macros = [m for m in cx["macros"] if not (self.macro_sub[m] and cx.get("no_sub"))]
         if callable_macros and rng.random() < 0.35:
             name = rng.choice(callable_macros)
             sig = self.macros[name]
@@ -428,6 +434,15 @@ class ProgGen:
 
     # ---------------------------------------------------------------- statements
     def stmts(self, kind, cx, depth, in_par, in_sub, top=False):
+        rng = self.rng
+        saved = cx.get("no_sub")
+        cx["no_sub"] = bool(in_par or in_sub)
+        try:
+            return self.stmts_(kind, cx, depth, in_par, in_sub, top)
+        finally:
+            cx["no_sub"] = saved
+
+    def stmts_(self, kind, cx, depth, in_par, in_sub, top=False):
         rng = self.rng
         n = rng.choice([0, 1, 1, 2, 2, 3, 4]) if not top else rng.choice([0, 1, 2, 3, 4, 5, 6])
         out = []
@@ -462,6 +477,8 @@ class ProgGen:
                 else:
                     s = self.gate(cx)
             if s is not None:
+                if s[0] == "sub" or (s[0] == "gate" and self.macro_sub.get(s[1])):
+                    cx["has_sub"] = True
                 if s[0] in ("seq", "par") and not s[1]:
                     self.feat["empty_block"] += 1
                 out.append(s)
@@ -492,6 +509,7 @@ class ProgGen:
         body = self.stmts(bk, cx, 1, bk == "par", False)
         # release the fresh parameter names: other macros may reuse them
         self.macros[name] = "".join(params.values())
+        self.macro_sub[name] = bool(cx.get("has_sub"))
         return ("macro", name, list(params), (bk, body))
 
     def program(self):
@@ -809,10 +827,23 @@ def impl_parse_program(text, gs):
     return c, None
 
 
+def _norm_defs(j):
+    """the model writes `unitary: false` for the definition a macro call refers to; dump.py leaves the key out"""
+    if isinstance(j, dict):
+        if j.get("tag") == "macro" and "unitary" not in j:
+            j["unitary"] = False
+        for v in j.values():
+            _norm_defs(v)
+    elif isinstance(j, list):
+        for v in j:
+            _norm_defs(v)
+    return j
+
+
 def dumpc(c):
     d = dump.circuit(c)
     d.pop("keys")
-    return d
+    return _norm_defs(d)
 
 
 def impl_round_trip(c, gs):
@@ -899,6 +930,35 @@ def has_same_kind_nesting(c):
                     return True
         return False
     return st(c.body, True) or any(st(m.body, False) for m in c.macros.values())
+
+
+def illegal_nesting(c):
+    """a subcircuit (directly, or through a macro call) inside a parallel block or another subcircuit: the
+    builder rejects the direct form, so no text can denote such a circuit"""
+    msub = {}
+
+    def has_sub(s):
+        if isinstance(s, GateStatement):
+            m = c.macros.get(s.name)
+            if m is None:
+                return False
+            if s.name not in msub:
+                msub[s.name] = False
+                msub[s.name] = has_sub(m.body)
+            return msub[s.name]
+        if isinstance(s, LoopStatement):
+            return has_sub(s.statements)
+        return s.subcircuit or any(has_sub(x) for x in s.statements)
+
+    def bad(s, inner):
+        if isinstance(s, GateStatement):
+            return inner and has_sub(s)
+        if isinstance(s, LoopStatement):
+            return bad(s.statements, inner)
+        if s.subcircuit and inner:
+            return True
+        return any(bad(x, inner or s.subcircuit or s.parallel) for x in s.statements)
+    return bad(c.body, False) or any(bad(m.body, False) for m in c.macros.values())
 
 
 PASSES = ["expand_macros", "expand_macros_keep", "fill_in_let", "fill_in_let_override", "fill_in_map", "expand_subcircuits",
@@ -1009,7 +1069,7 @@ def api_circuit(rng, integral_floats):
         sz = n if rng.random() < 0.5 or not isinstance(lets[n][1], Constant) else lets[n][1]
     else:
         sz = size
-    reg = b.register(rn, sz, unevaluated=uneval())
+    reg = b.register(rn, sz, unevaluated=uneval() or isinstance(sz, str))
     desc.append(("register", rn, repr(sz)))
     regs = {rn: (size, reg)}
     qubits = []
@@ -1018,6 +1078,7 @@ def api_circuit(rng, integral_floats):
         src = rng.choice(list(regs))
         S, sobj = regs[src]
         srcarg = sobj if isinstance(sobj, Register) and rng.random() < 0.5 else src
+        uneval = (lambda: True) if isinstance(srcarg, str) else (lambda: rng.random() < 0.5)   # noqa
         k = rng.random()
         if k < 0.3 or S < 1:
             o = b.map(n, srcarg, unevaluated=uneval())
@@ -1155,14 +1216,15 @@ def call_driver(driver, reqs):
 
 # ------------------------------------------------------------------------------------------------ run
 
-ORACLES = ["reparse_equal", "text_fixpoint", "same_meaning", "nothing_lost", "after_passes", "builder_api",
+ORACLES = ["reparse_equal", "text_fixpoint", "same_meaning", "nothing_lost", "after_passes",
+           "after_passes_with_shadowing_parameters", "builder_api",
            "builder_api_integral_floats", "no_same_kind_nesting_from_parser", "generate_never_raises_on_parsed"]
 
 
 class Acc:
     def __init__(self, driver):
         self.driver = driver
-        self.corr = {op: {"cases": 0, "disagreements": []} for op in ("parse_program", "round_trip")}
+        self.corr = {op: {"cases": 0, "disagreements": []} for op in ("parse_program", "round_trip", "round_trip_layers")}
         self.oracle = {k: {"cases": 0, "failures": []} for k in ORACLES}
         self.dist = Counter()
         self.samples = []
@@ -1235,24 +1297,28 @@ def trip_oracles(acc, c, gs, case, prog=None):
     return ans
 
 
-def pass_oracles(acc, c, gs, case, rng, names):
+def pass_oracles(acc, c, gs, case, rng, names, shadowing=False):
+    oname = "after_passes_with_shadowing_parameters" if shadowing else "after_passes"
     for name in names:
         try:
             cp = apply_pass(name, c, rng)
         except Exception as e:  # noqa
             acc.dist[f"pass:{name}:not_applicable:{type(e).__name__}"] += 1
             continue
+        if illegal_nesting(cp):
+            acc.dist[f"pass:{name}:not_applicable:result_nests_subcircuit_illegally"] += 1
+            continue
         acc.dist[f"pass:{name}:applied"] += 1
         pcase = dict(case, **{"pass": name})
         try:
             t = generate_jaqal_program(cp)
         except Exception as e:  # noqa
-            acc.check("after_passes", False, pcase, f"generator raises {type(e).__name__}: {e}")
+            acc.check(oname, False, pcase, f"generator raises {type(e).__name__}: {e}")
             continue
         try:
             c2 = parse(t, gs)
         except Exception as e:  # noqa
-            acc.check("after_passes", False, pcase, f"text generated after the pass is rejected: {type(e).__name__}: {e}; text: {t!r}")
+            acc.check(oname, False, pcase, f"text generated after the pass is rejected: {type(e).__name__}: {e}; text: {t!r}")
             continue
         m1, m2 = meaning(cp), meaning(c2)
         nest = has_same_kind_nesting(cp)
@@ -1264,7 +1330,7 @@ def pass_oracles(acc, c, gs, case, rng, names):
             problems.append("second generation differs")
         if not nest and not (cp == c2 and c2 == cp):
             problems.append("P(c) != parse(gen(P(c)))")
-        acc.check("after_passes", not problems, pcase, "; ".join(problems) + f"; text: {t!r}")
+        acc.check(oname, not problems, pcase, "; ".join(problems) + f"; text: {t!r}")
 
 
 def process_program(acc, seed, idx, thorough):
@@ -1272,21 +1338,35 @@ def process_program(acc, seed, idx, thorough):
     case = {"kind": "program", "seed": seed, "idx": idx, "text": text, "gs": gs}
     natives = NATIVES_JSON if gs else None
     c, err = impl_parse_program(text, gs)
+    # `as_integer(float)` is `int(float)`: the exact BINARY value. The model's floats are exact decimals (DESIGN 3.3),
+    # so an integral let value >= 2^53 is outside the model; such programs only go through the direct oracles.
+    outside = any(lit[0] == "flt" and abs(float(lit[1])) >= 2.0 ** 53 for _n, lit in p.lets)
+    if outside:
+        acc.dist["outside_model:integral_let_float_ge_2^53"] += 1
+        ask = lambda *a: None   # noqa
+    else:
+        ask = acc.ask
     for k, v in p.feat.items():
         acc.dist["feature:" + k] += 1 if v else 0
     acc.dist["gate_set" if gs else "no_gate_set"] += 1
     if c is None:
         acc.dist["generated_program_rejected:" + err["err"]] += 1
-        acc.ask("parse_program", {"text": text, "natives": natives}, case, err)
-        acc.ask("round_trip", {"text": text, "natives": natives}, case, dict(err, stage="parse"))
+        ask("parse_program", {"text": text, "natives": natives}, case, err)
+        ask("round_trip", {"text": text, "natives": natives}, case, dict(err, stage="parse"))
     else:
         acc.dist["accepted"] += 1
         acc.nontrivial.add(text)
-        acc.ask("parse_program", {"text": text, "natives": natives}, case, {"ok": dumpc(c)})
+        ask("parse_program", {"text": text, "natives": natives}, case, {"ok": dumpc(c)})
         ans = trip_oracles(acc, c, gs, case, prog=p)
-        acc.ask("round_trip", {"text": text, "natives": natives}, case, ans)
+        ask("round_trip", {"text": text, "natives": natives}, case, ans)
+        if "equal" in ans and ans["equal"] and ans["stable"]:
+            # the layer statements of the Lean development (tokens derive / lexing the generated text / rebuilding the
+            # S-expression), evaluated inside the model: all hold whenever the real code round-trips
+            ask("round_trip_layers", {"text": text, "natives": natives}, case, {"printable": True, "A": True, "B": True, "C": True})
         names = PASSES if thorough or idx % 2 == 0 else rng.sample(PASSES, 3)
-        pass_oracles(acc, c, gs, case, rng, names)
+        shadow = any(k.startswith("param_shadows") for k in p.feat)
+        acc.dist["semantically_illegal_nesting_accepted_by_builder"] += 1 if illegal_nesting(c) else 0
+        pass_oracles(acc, c, gs, case, rng, names, shadowing=shadow)
         if len(acc.samples) < 4 and len(text) > 150:
             acc.samples.append(case)
     # mutants: rejections (and the occasional accepted variant) for the correspondence
@@ -1296,13 +1376,13 @@ def process_program(acc, seed, idx, thorough):
         mc, merr = impl_parse_program(mt, gs)
         if mc is None:
             acc.dist["mutant_rejected:" + merr["err"]] += 1
-            acc.ask("parse_program", {"text": mt, "natives": natives}, mcase, merr)
+            ask("parse_program", {"text": mt, "natives": natives}, mcase, merr)
         else:
             acc.dist["mutant_accepted"] += 1
             acc.nontrivial.add(mt)
-            acc.ask("parse_program", {"text": mt, "natives": natives}, mcase, {"ok": dumpc(mc)})
+            ask("parse_program", {"text": mt, "natives": natives}, mcase, {"ok": dumpc(mc)})
             ans = trip_oracles(acc, mc, gs, mcase)
-            acc.ask("round_trip", {"text": mt, "natives": natives}, mcase, ans)
+            ask("round_trip", {"text": mt, "natives": natives}, mcase, ans)
 
 
 def process_api(acc, seed, idx, integral_floats):
